@@ -11,6 +11,24 @@ CHECKS = {
    note="Process-death crash model (completed writes survive, unsynced tail may be cut, rolled-over files intact); std::fs, snap and tmpfs semantics trusted; histories sampled, not enumerated."),
 }
 
+NODE_NOTE = "Trusted base: ckb-types builders/views/hashes, RocksDB, the reference model in sim/simnode/src/model.rs (written from the property texts and RFCs 0020/0044, exact arithmetic via num-bigint-dig). One simulated run per OS process; seeded search over histories and schedules, not exhaustive."
+def node(design, technique, text):
+    return dict(engine="simnode", category="exploration", design_ref=design, technique=technique, text=text, note=NODE_NOTE)
+CHECKS.update({
+ "C01": node("§8 C01, §5 E-NODE", "deterministic simulation of block delivery order/duplication/orphans and chain-stage interleaving against a max-work-valid-chain reference model",
+   "Seeded random block trees (forks, competing branches, clock-driven uneven difficulty, single-rule-invalid blocks anywhere) are delivered in seeded orders with duplicates to the REAL chain stages (insert/preload/verify/orphan cleaner) stepped by the simulator; the final tip must carry the maximal work of any fully valid chain formable from the delivered set, the tip history must have strictly increasing work, every connectable block must be connected. Node panics are violations. Exploration is the right level: the space of trees x permutations x interleavings is unbounded; each run is exactly replayable from its scenario file."),
+ "C02": node("§8 C02, §5 E-NODE", "deterministic simulation of reorg histories with snapshot readers and restarts; full column-by-column comparison with a replay model",
+   "At every quiescent point, after every restart and inside every snapshot captured at a simulator-chosen step, every row of the canonical-chain columns (cells, cell data, tx info, index, uncles, epochs, block ext, MMR roots) is compared with the model's replay of the stored tip's chain."),
+ "C03": node("§8 C03, §5 E-NODE", "deterministic simulation: model-built valid blocks and single-rule mutants delivered in random histories; refusal atomicity checked against the replay model",
+   "Blocks valid by construction (independent builder) must be attached when heaviest; blocks with exactly one named rule violation (DAO, target, epoch, reward, cellbase, extension/chain root) anywhere in the tree must never be attached or marked verified, and a refused reorganisation must leave the stored state equal to the old tip's replay. Header-only rules (timestamp bounds, PoW) are outside this check."),
+ "C06": node("§8 C06, §5 E-NODE", "deterministic simulation with an independent issuance model (reward split, first-proposer rule, DAO accumulation) as block builder and monitor",
+   "Every cellbase and DAO field is computed by the model from the property text; the node must accept exactly those blocks and reject +-1 mutants; header U must equal the occupied capacity of the stored live cells; every main-chain cellbase must equal the property-text reward. One genuine deviation (proposer share for target block 1) is a recorded known finding."),
+ "C19": node("§8 C19, §5 E-NODE", "deterministic simulation; from-scratch MMR (own RFC 0044 merge) as builder and monitor across reorgs and restarts",
+   "Chain-root half of C19: every block on every fork commits to the naive MMR root over its ancestors (equality enforced through the node's own verifier on model-built blocks), wrong roots are rejected, and after every reorg/restart the node's chain_root_mmr roots equal the naive ones. Proof serving and block filters are not covered yet."),
+ "C20": node("§8 C20, §5 E-NODE + process restarts", "deterministic simulation of reorgs relative to the proposal window with clean restarts (new OS process) at arbitrary operation indexes",
+   "After every tip change and after every restart (start-up reconstruction path) the snapshot's proposal view {set, gap} must equal the union over the model's window, for windows 1..3 / 2..11, chains shorter than the window and reorgs deeper than it."),
+})
+
 NA = {
  "C15": "pure encode/decode and hash functions of one value: no schedule, clock, fault or interleaving for a simulator to own (DESIGN.md §8 C15)",
 }
@@ -49,6 +67,7 @@ def main():
         },
         "engines": [
             {"name": "simfrz", "path": "/verif/sim/simfrz", "serves_properties": ["C09"], "kind_free_text": "in-process deterministic simulation of freezer files with crash-state construction"},
+            {"name": "simnode", "path": "/verif/sim/simnode", "serves_properties": [p for p in CHECKS if CHECKS[p]["engine"] == "simnode"], "kind_free_text": "one real node (RocksDB, Shared, chain stages, verification) per OS process under a seeded step scheduler with a reference chain model; restarts and crashes are new OS processes on the same directories"},
         ],
         "checks": checks,
         "not_applicable": na,
